@@ -238,10 +238,15 @@ def fresh_container_own_slots(x: np.ndarray):
     d = {"a": x}
     d["b"] = 3
     del d["b"]
-    return sorted(d)[0] if False else 0
+    return len(d)
 
 
-def copies_in_container(xs: list):
+def copies_of_untyped_items(xs: list):
+    out = [v.copy() for v in xs]  # items of unknown type: `.copy()` may be a shallow list / dict copy
+    return out
+
+
+def copies_in_container(xs: list[np.ndarray]):
     out = [v.copy() for v in xs]
     out[0][...] = 0.0
     return out
@@ -288,6 +293,7 @@ EXPECT = {
     "temp_receiver": {"write": ["x"], "alias": ["x"]},
     "temp_receiver_ctor": {"alias": ["x"]},
     "loop_receiver": {"alias": ["xs"]},
+    "copies_of_untyped_items": {"alias": ["xs"]},
 }
 EXACT = {
     "fresh_container_of_param": {"write": [], "alias": []},
@@ -298,6 +304,7 @@ EXACT = {
 
 _l = lambda: [np.ones(2), np.ones(3)]  # noqa: E731
 ARGS = {
+    "copies_of_untyped_items": lambda: {"xs": [[np.ones(2)]]},
     "iadd_param": lambda: {"acc": [1], "xs": [2]},
     "sum_lists": lambda: {"xss": [[np.ones(2)], [np.ones(3)]]},
     "zip_nested_lists": lambda: {"x": np.ones(2), "z": np.ones(2)},
